@@ -110,8 +110,8 @@ def work(job):
 def _work(job):
     import gen, netbuild, sx, findings
     prop = load_prop(job['prop'])
-    if hasattr(prop, 'custom_work'):
-        return prop.custom_work(job)
+    if job.get('custom'):
+        return prop.custom_work(job, _DRV)
     cfg = job.get('cfg') or gen.gen(job['region'], job['gseed'], job.get('size', 'quick'))
     if hasattr(prop, 'adjust'):
         cfg = prop.adjust(cfg, job)
